@@ -7,7 +7,9 @@
 
    Model/Profiler.v names attributes by integers; `aid` is any naming that is injective on the columns
    and the requested attributes, `name_of` its inverse on the columns.  A closed instance (all hypotheses
-   discharged by computation) is at the end.  Axiom-free.                                        *)
+   discharged by computation) is at the end, and one for a column that holds None AND NaN (in the domain
+   since the source counts the missing value itself: ex_mixed_missing; the old count: ex_mixed_old_count).
+   Axiom-free.                                                                                     *)
 From Coq Require Import ZArith Bool List String SpecFloat Lia.
 From SSJ Require Import F64 PyNum Frame ProfFrame Profiler ProfilerGen Projection ProjectionFacts
      WrapperRefineFrame ProfilerRefineUniq ProfilerRefineBase ProfilerRefine.
@@ -231,7 +233,54 @@ Example ex_strings :
                     PList [PStr "Unique values"; PStr "Missing values"; PStr "Comments"]]].
 Proof. vm_compute. reflexivity. Qed.
 
+(* ------------------------------------------------------------------ None AND NaN in one column *)
+(* an object column that holds both spellings of the missing value, and one string: 2 distinct values
+   (the missing value counts once), 2 missing *)
+Definition mix_cells : list pyval := [PNone; py_nan; PStr "x"].
+Definition mix_cols : list string := ["v"].
+Definition mix_rows : list (list pyval) := map (fun c => [c]) mix_cells.
+Definition mix_ids (a : string) : column := [None; None; Some 1].
+
+(* through the theorem: the table is in its domain (it was not before the repair of the source) *)
+Example ex_mixed_missing : forall sf,
+  profile_table_for_join_rows sf (sframe mix_cols mix_rows) PNone
+  = render_rows sf [("v", mkrow 2 (pct 2 3) 2 (pct 2 3) CmtMissing)].
+Proof.
+  intros sf.
+  change PNone with (py_opt_strs None).
+  rewrite (profile_table_for_join_rows_refines_model sf (fun _ => 1) mix_cols mix_rows mix_ids None).
+  - reflexivity.
+  - apply wf_table_b_sound. vm_compute. reflexivity.
+  - vm_compute. reflexivity.
+  - apply inj_on_b_sound. vm_compute. reflexivity.
+Qed.
+
+(* directly, by computation, with a stand-in for str(float) *)
+Example ex_mixed_missing_strings :
+  profile_table_for_join_rows (fun _ => "<pct>") (sframe mix_cols mix_rows) PNone
+  = PTuple [PStr "Attribute"; PList [PStr "v"];
+            PTuple [PList [PList [PStr "2 (<pct>%)"; PStr "2 (<pct>%)";
+                                  PStr "Joining on this attribute will ignore 2 (<pct>%) rows."]];
+                    PList [PStr "Unique values"; PStr "Missing values"; PStr "Comments"]]].
+Proof. vm_compute. reflexivity. Qed.
+
+(* the OLD count len(S.unique()) keeps None and NaN apart: 3 "values" on this column; the repaired source
+   counts len(S.dropna().unique()) = 1 present value + 1 for the missing value *)
+Example ex_mixed_old_count :
+  series_nunique (PList mix_cells) = PInt 3 /\ nunique mix_cells = 3%nat /\
+  series_nunique_present (PList mix_cells) = PInt 1 /\
+  py_sum (series_isnull (PList mix_cells)) = PInt 2 /\
+  n_unique (mix_ids "v") = 2.
+Proof. vm_compute. repeat split; reflexivity. Qed.
+
+(* and the hashtable equality does NOT agree with the value ids on the two missing cells *)
+Example ex_mixed_two_spellings : cell_key_eq PNone py_nan = false /\ oz_eqb None None = true.
+Proof. vm_compute. split; reflexivity. Qed.
+
 Print Assumptions profile_table_for_join_rows_refines_model.
+Print Assumptions ex_mixed_missing.
+Print Assumptions ex_mixed_missing_strings.
+Print Assumptions ex_mixed_old_count.
 Print Assumptions ex_all_columns.
 Print Assumptions ex_unknown_attribute.
 Print Assumptions ex_no_rows.
